@@ -378,6 +378,28 @@ pub fn gen_cond(t: &mut Tape) -> (Vec<Node>, Vec<(String, DefVal)>) {
             _ => {}
         }
     }
+    // v2: a chain of integer constants each defined through the NEXT one (use before declaration, several
+    // links), read by conditions: the address-free pre-pass has to iterate to a fixed point before any arm is chosen
+    if crate::engine::gen_version() >= 2 && t.chance(1, 3) {
+        let names = ["rv1", "rv3", "rv5", "rv7", "rv9"];
+        let len = t.urange(2, 5);
+        let base = t.draw(3) as u64;
+        let mut decls: Vec<Node> = Vec::new();
+        for k in 0..len {
+            let e = if k + 1 < len { E::Bin(BinOp::Add, Box::new(E::Var(names[k + 1].to_string())), Box::new(lit_of(t.draw(2) as u64))) } else { lit_of(base) };
+            decls.push(Node::Item(Item::Const { dots: 0, name: names[k].to_string(), e, noemit: false }));
+            g.top.push(names[k].to_string());
+            g.cond_names.push(names[k].to_string());
+        }
+        // heads first (reverse dependency order), or the tail of the chain at the very end of the file
+        if t.flip() {
+            nodes.extend(decls);
+        } else {
+            let last = decls.pop().unwrap();
+            nodes.extend(decls);
+            tail.push(last);
+        }
+    }
     if g.dotted_mode {
         nodes.push(Node::Item(Item::Label { dots: 0, name: "gtop".into() }));
         g.cur_global = Some("gtop".into());
@@ -438,7 +460,7 @@ impl Property for C16 {
         "C16"
     }
     fn rule(&self) -> String {
-        "each case = a tree of #if/#elif/#else chains to depth 4 whose conditions read global and hierarchical (cfg.dbg) constants - declared before, after, or only inside other arms - through \
+        "each case = a tree of #if/#elif/#else chains to depth 4 whose conditions read global and hierarchical (cfg.dbg) constants - declared before, after, or only inside other arms, or through a chain of up to five constants each defined by the next one - through \
          !, comparisons, && and ||, plus rare undecidable (label) and non-boolean conditions; arms hold marker bytes, global labels (and data reading them), constants and nested chains; x 0-4 \
          defines (true/false/small/negative/hex values; names of constants, hierarchical names, and names of nothing), passed both as driver symbol definitions to the library and as \
          -dN=V / -d N=V / --define N=V to the driver. Oracle R-COND: the reference computes the least fixed point (resolve address-free constants with overrides, splice every chain whose next \
